@@ -429,6 +429,15 @@ def check_algebra(model, rep):
     raises = [s for s in find_stmts(ca.body, lambda s: isinstance(s, ast.Raise)) if 'DimensionError' in src(s)]
     rep.ob('R20.4', ca.key, ca.where(), ok and bool(raises), 'constructing a quantity from a string checks the parsed dimension and raises DimensionError' if ok and raises else
            'Dimension.__call__ returns the parsed quantity without comparing its type with the expected dimension', statement='call-checks-dimension')
+    # every value the constructor hands out was tied to THIS dimension: the pass-through of an existing quantity too
+    for r_ in find_stmts(ca.body, lambda s: isinstance(s, ast.Return) and s.value is not None and src(s.value) != 'q'):
+        fr = facts_at(ca.node, lambda s, r_=r_: s is r_)
+        rv = src(r_.value)
+        tied = any(v and isinstance(n, ast.Call) and src(n.func) == 'isinstance' and len(n.args) == 2 and src(n.args[0]) == rv and src(n.args[1]) == 'cls' for n, v in fr.facts.values()) or \
+            any(isinstance(n, ast.Compare) and src(n.left) == f'type({rv})' and src(n.comparators[0]) in ('cls', 'expect') and ((isinstance(n.ops[0], (ast.Eq, ast.Is)) and v) or (isinstance(n.ops[0], (ast.NotEq, ast.IsNot)) and not v)) for n, v in fr.facts.values())
+        rep.ob('R20.4', ca.key, ca.where(r_), tied, f'`return {rv}` is reached only for a value of this dimension (isinstance(value, cls))' if tied else
+               f'`return {rv}` hands out a value that was never compared with this dimension: SI.Length(SI.Time(...)) returns the time quantity, so an assignment between different dimensions goes through the constructor unnoticed',
+               statement=f'call-passthrough {rv}')
     ok = any(isinstance(s, ast.Assign) and src(s.targets[0]) == 'expect' and src(s.value).replace(' ', '') == 'floatifnotcls.__powerselsecls' for s in ca.body)
     rep.ob('R20.4', ca.key, ca.where(), ok, 'the dimensionless type expects a plain float' if ok else 'the expected type of Dimension.__call__ changed', statement='call-expect')
     wr = d.members['wrap'].func
